@@ -22,6 +22,8 @@ type Gen struct {
 
 	nanRate float64
 
+	twinRate float64 // share of series mirrored under the other metric name
+
 	// per-case context
 	lookback int64
 	step     int64
@@ -87,6 +89,12 @@ func (g *Gen) selectorCore(metric string) string {
 	}
 	if g.chance(0.08) {
 		ms = append(ms, fmt.Sprintf(`__name__="%s"`, metric))
+		g.r.Shuffle(len(ms), func(i, j int) { ms[i], ms[j] = ms[j], ms[i] })
+		return "{" + strings.Join(ms, ",") + "}"
+	}
+	if g.chance(0.05) {
+		// both metrics at once: series that differ in the name only meet in one vector
+		ms = append(ms, g.pick(`__name__=~"m|n"`, `__name__=~".+"`, `__name__!="h_bucket"`))
 		g.r.Shuffle(len(ms), func(i, j int) { ms[i], ms[j] = ms[j], ms[i] })
 		return "{" + strings.Join(ms, ",") + "}"
 	}
@@ -639,6 +647,24 @@ func (g *Gen) dataset(c *Case, ranges []int64, withHist bool) {
 		}
 		seen[key] = true
 		c.Series = append(c.Series, g.seriesFor(c, ls, ranges, g.chance(0.4)))
+		if g.chance(0.2+g.twinRate) && len(c.Series) < g.maxSeries {
+			// the same label set under the other metric name
+			other := "n"
+			if name == "n" {
+				other = "m"
+			}
+			tw := make([][2]string, len(ls))
+			copy(tw, ls)
+			for k := range tw {
+				if tw[k][0] == "__name__" {
+					tw[k][1] = other
+				}
+			}
+			if key2 := fmt.Sprint(tw); !seen[key2] {
+				seen[key2] = true
+				c.Series = append(c.Series, g.seriesFor(c, tw, ranges, g.chance(0.4)))
+			}
+		}
 	}
 	if withHist {
 		groups := 1 + g.r.Intn(2)
@@ -787,6 +813,17 @@ func (g *Gen) Case(i int) *Case {
 		c.Query = g.rangeFn(c)
 	case "agg":
 		c.Query = g.aggExpr(c, 1+g.r.Intn(2))
+		if g.chance(0.06) {
+			// series that differ in the metric name only, grouped without any label: the name is
+			// not part of the group key
+			sel := g.pick(`{__name__=~"m|n"}`, `{__name__=~".+"}`, `{__name__=~"m|n",a!=""}`, `{__name__!="x"}`)
+			op := g.pick("sum", "count", "max", "avg", "group", "min")
+			c.Query = fmt.Sprintf("%s without (%s) (%s)", op, g.pick("", "", "a", "b"), sel)
+			if g.chance(0.2) {
+				c.Query = fmt.Sprintf("topk without () (%d, %s)", g.pickI(1, 2, 5), sel)
+			}
+			g.twinRate = 0.6
+		}
 	case "hist":
 		// histogram_quantile in all its input shapes (bare buckets, regex over two bucket
 		// metrics, aggregated and rated buckets), with constant and moving quantiles
@@ -899,6 +936,7 @@ func (g *Gen) Case(i int) *Case {
 	}
 	g.dataset(c, ranges, strings.Contains(c.Query, "_bucket"))
 	g.nanRate = 0
+	g.twinRate = 0
 	c.Procs = int(g.pickI(2, 4, 8, 16, 1, 6))
 	// the optimizers must not change anything: run a share of the cases with them
 	c.Opt = g.pick("none", "none", "default", "default", "all")
